@@ -138,6 +138,24 @@ pub fn run_case(case: &ICase, obs: &mut Vec<u64>) {
     let mut t = TooDee::from_vec(c, r, (0..(c * r) as u32).collect());
     let (s, e) = ((case.win.0 as usize, case.win.1 as usize), (case.win.2 as usize, case.win.3 as usize));
     let mut o: Vec<u64> = vec![];
+    if case.recv >= 3 {
+        // TooDeeView::new / TooDeeViewMut::new over a slice that is win.0 cells longer than
+        // the array (the documentation allows it: only a too-short slice is rejected)
+        let mut buf: Vec<u32> = (0..(c * r + case.win.0 as usize) as u32).collect();
+        let res = catch_unwind(AssertUnwindSafe(|| {
+            let into = case.kind == 3;
+            match (case.recv, case.mutable) {
+                (3, _) => { let v = TooDeeView::new(c, r, &buf); if into { drive((&v).into_iter(), case, &mut o, None) } else { run_on(&v, case, &mut o) } }
+                (_, false) => { let v = TooDeeViewMut::new(c, r, &mut buf); if into { drive((&v).into_iter(), case, &mut o, None) } else { run_on(&v, case, &mut o) } }
+                (_, true) => { let mut v = TooDeeViewMut::new(c, r, &mut buf); if into { drive((&mut v).into_iter(), case, &mut o, None) } else { run_on_mut(&mut v, case, &mut o) } }
+            }
+        }));
+        match res {
+            Ok(()) => { obs.push(1); obs.extend(o); if case.mutable { obs.push(buf.len() as u64); obs.extend(buf.iter().map(|x| *x as u64)); } }
+            Err(_) => { if o.is_empty() { obs.push(0) } else { obs.push(MARK_PROBE_PANIC); obs.extend(o) } }
+        }
+        return;
+    }
     let res = catch_unwind(AssertUnwindSafe(|| {
         let into = case.kind == 3;
         match (case.recv, case.mutable) {
@@ -206,6 +224,11 @@ fn receivers(tier: &str) -> Vec<Recv> {
     let smax = if tier == "quick" { 3 } else { 5 };
     v.push(Recv { recv: 0, c: 0, r: 0, win: (0, 0, 0, 0), cols: 0, rows: 0 });
     for c in 1..=smax { for r in 1..=smax { v.push(Recv { recv: 0, c, r, win: (0, 0, 0, 0), cols: c, rows: r }); } }
+    // views constructed directly over a slice with 0, 1, cols-1, cols, 2*cols+1 spare cells
+    for (c, r) in [(0u64, 0u64), (1, 1), (3, 2), (2, 3), (1, 4), (4, 1)] {
+        let mut extras = vec![0, 1, c.saturating_sub(1), c, 2 * c + 1]; extras.sort_unstable(); extras.dedup();
+        for extra in extras { for recv in [3, 4] { v.push(Recv { recv, c, r, win: (extra, 0, 0, 0), cols: c, rows: r }); } }
+    }
     let parents: Vec<(u64, u64)> = if tier == "quick" { vec![(4, 4), (1, 3), (3, 1)] } else { vec![(5, 5), (6, 4), (1, 4), (4, 1), (2, 7)] };
     for (pc, pr) in parents {
         for s0 in 0..=pc { for e0 in s0..=pc { for s1 in 0..=pr { for e1 in s1..=pr {
@@ -233,7 +256,7 @@ pub fn generate(out: &mut Out, prop: u32, tier: &str, rng: &mut Rng) {
                 else { vec![0, rc.cols / 2, rc.cols - 1, rc.cols, u64::MAX] };
             for col in cols_to_try {
                 for mutable in [false, true] {
-                    if mutable && rc.recv == 1 { continue; }
+                    if mutable && (rc.recv == 1 || rc.recv == 3) { continue; }
                     let mk = |calls: Vec<(u64, u64)>, term: u64| ICase {
                         recv: rc.recv, mutable, c: rc.c, r: rc.r, win: rc.win, kind, col, calls, term };
                     // every single call, then a terminal operation
@@ -267,5 +290,41 @@ pub fn generate(out: &mut Out, prop: u32, tier: &str, rng: &mut Rng) {
                 }
             }
         }
+    }
+}
+
+/// C04: iteration through a view reaches exactly the window's cells - rows_mut / col_mut /
+/// cells_mut (and the shared forms) of every window, single calls, pairs of calls from
+/// either end and random sequences, with a mark written through every yielded item
+pub fn generate_views(out: &mut Out, prop: u32, tier: &str, rng: &mut Rng) {
+    let parents: Vec<(u64, u64)> = if tier == "quick" { vec![(4, 3), (3, 4)] } else { vec![(5, 4), (4, 5), (2, 6), (6, 2)] };
+    let (nrand, maxdepth) = if tier == "quick" { (4, 6) } else { (20, 10) };
+    for (pc, pr) in parents {
+        for s0 in 0..=pc { for e0 in s0..=pc { for s1 in 0..=pr { for e1 in s1..=pr {
+            let (mut nc, mut nr) = (e0 - s0, e1 - s1);
+            if nc == 0 || nr == 0 { nc = 0; nr = 0; }
+            if tier == "quick" && nc * nr == 0 && (s0 + s1) % 2 == 1 { continue; }
+            for kind in [0u64, 1, 2] { for (recv, mutable) in [(1u64, false), (2, false), (2, true)] {
+                let len = match kind { 0 | 1 => nr, _ => nr * nc };
+                let col = if kind == 1 { nc / 2 } else { 0 };
+                let mk = |calls: Vec<(u64, u64)>, term: u64| ICase { recv, mutable, c: pc, r: pr, win: (s0, s1, e0, e1), kind, col, calls, term };
+                let ns = [0u64, 1, 2, len.saturating_sub(1), len];
+                let mut singles: Vec<(u64, u64)> = vec![(0, 0), (1, 0), (4, 0)];
+                for &n in &ns { singles.push((2, n)); singles.push((3, n)); }
+                singles.sort_unstable(); singles.dedup();
+                if mutable || tier != "quick" {
+                    for a in &singles { for b in &singles {
+                        emit(out, prop, &mk(vec![*a, *b, (1, 0), (0, 0), (1, 0)], if kind == 1 { 2 } else { 2 + (a.1 + b.1) % 2 }));
+                    } }
+                } else {
+                    for a in &singles { emit(out, prop, &mk(vec![*a, (1, 0), (0, 0)], 2)); }
+                }
+                for _ in 0..nrand {
+                    let d = 2 + rng.below(maxdepth) as usize;
+                    let calls: Vec<(u64, u64)> = (0..d).map(|_| (*rng.pick(&[0u64, 1, 1, 2, 3, 3, 4]), rng.below(len + 2))).collect();
+                    emit(out, prop, &mk(calls, if kind == 1 { 2 } else { 2 + rng.below(2) }));
+                }
+            } }
+        } } } }
     }
 }
